@@ -323,3 +323,67 @@ Proof.
   eexists. split; [reflexivity|]. split; [exact H1|]. split; [exact H2|].
   intros i j Hi Hj. unfold absd at 1. rewrite (H4 i j Hi Hj). reflexivity.
 Qed.
+
+(* ------------------------------------------------------------------ in-place operations as functions of the argument VALUES *)
+(* the previous content of the receiver is irrelevant (only its dimensions matter) *)
+Lemma inplace_overwrites_dense d d' : nr d = nr d' -> nc d = nc d' ->
+  (forall x y tx ty, D_prodMatMat d x y tx ty = D_prodMatMat d' x y tx ty) /\
+  (forall a m t, D_prodNormMatMat d a m t = D_prodNormMatMat d' a m t) /\
+  (forall a v t, D_prodNormMatVec d a v t = D_prodNormMatVec d' a v t).
+Proof.
+  intros Hr Hc.
+  assert (ES : forall r, e_store d r = e_store d' r) by (intro r; unfold e_store, isSameSize; rewrite Hr, Hc; reflexivity).
+  split; [|split].
+  - intros. unfold D_prodMatMat. destruct (e_mul tx ty x y); simpl; auto.
+  - intros. unfold D_prodNormMatMat. destruct (e_mul t false a m); simpl; auto. destruct (e_mul false (negb t) a0 a); simpl; auto.
+  - intros. unfold D_prodNormMatVec. destruct v.
+    + destruct (e_mul t (negb t) a a); simpl; auto.
+    + destruct (e_mul_diag t a (q :: v)); simpl; auto. destruct (e_mul false (negb t) a0 a); simpl; auto.
+Qed.
+Lemma meq_trans_sym m n A B C : meq m n A C -> meq m n B C -> meq m n A B.
+Proof. intros H1 H2 i j Hi Hj. rewrite (H1 i j Hi Hj), (H2 i j Hi Hj). reflexivity. Qed.
+Lemma inplace_overwrites_generic d d' x y tx ty : wfd d -> wfd d' -> nr d = nr d' -> nc d = nc d' ->
+  dimc tx x = dimr ty y -> nr d = dimr tx x -> nc d = dimc ty y ->
+  exists r r', G_prodMatMat false d x y tx ty = Ok r /\ G_prodMatMat false d' x y tx ty = Ok r' /\
+    nr r = nr r' /\ nc r = nc r' /\ meq (nr d) (nc d) (absd r) (absd r').
+Proof.
+  intros W W' Hr Hc Hk H1 H2.
+  destruct (prodMatMat_generic d x y tx ty W Hk H1 H2) as [r [E [R1 [R2 M]]]].
+  destruct (prodMatMat_generic d' x y tx ty W' Hk) as [r' [E' [R1' [R2' M']]]]; [congruence|congruence|].
+  exists r, r'. split; [exact E|]. split; [exact E'|]. split; [congruence|]. split; [congruence|].
+  apply (meq_trans_sym _ _ _ _ _ M). rewrite Hr, Hc. exact M'.
+Qed.
+
+(* the result only depends on the VALUES of the operands: a copy (any storage with the same dimensions and entries), the
+   same object passed twice (y := x) or distinct objects give the same result *)
+Lemma alias_agnostic_dense d x y x' y' tx ty :
+  nr x = nr x' -> nc x = nc x' -> meq (nr x) (nc x) (absd x) (absd x') ->
+  nr y = nr y' -> nc y = nc y' -> meq (nr y) (nc y) (absd y) (absd y') ->
+  dimc tx x = dimr ty y -> nr d = dimr tx x -> nc d = dimc ty y ->
+  exists r r', D_prodMatMat d x y tx ty = Ok r /\ D_prodMatMat d x' y' tx ty = Ok r' /\ meq (nr d) (nc d) (absd r) (absd r').
+Proof.
+  intros Xr Xc XM Yr Yc YM Hk H1 H2.
+  assert (D1 : dimr tx x' = dimr tx x /\ dimc tx x' = dimc tx x) by (destruct tx; simpl; split; congruence).
+  assert (D2 : dimr ty y' = dimr ty y /\ dimc ty y' = dimc ty y) by (destruct ty; simpl; split; congruence).
+  destruct D1 as [D1 D1']. destruct D2 as [D2 D2'].
+  destruct (prodMatMat_dense d x y tx ty Hk H1 H2) as [r [E [_ [_ [_ M]]]]].
+  destruct (prodMatMat_dense d x' y' tx ty) as [r' [E' [_ [_ [_ M']]]]]; [congruence|congruence|congruence|].
+  exists r, r'. split; [exact E|]. split; [exact E'|].
+  intros i j Hi Hj. rewrite (M i j Hi Hj), (M' i j Hi Hj). rewrite D1'.
+  apply mmul_ext.
+  - intros l Hl. destruct tx; simpl in *; unfold mT; apply XM; lia.
+  - intros l Hl. rewrite Hk in Hl. destruct ty; simpl in *; unfold mT; apply YM; lia.
+Qed.
+
+(* ... but the code of AMatrix::prodMatInPlace / prodMatMatInPlace(this, ...) on dense classes assigns through noalias() *)
+Lemma prodMatInPlace_dense_refuted : exists d y ty c, wfd d /\ wfd y /\ nc d = dimr ty y /\ dimc ty y = nc d /\ D_prodMatInPlace d y ty = UB c.
+Proof. exists (tab 2 2 mid), (tab 2 2 mid), false, ub_alias. vm_compute. auto 10. Qed.
+(* and the generic loop nest reads entries of the receiver it has already overwritten *)
+Lemma prodMatInPlace_generic_refuted : exists d y r,
+  wfd d /\ wfd y /\ nr y = nc d /\ nc y = nc d /\ G_prodMatMat_alias false d d y false false true false = Ok r /\
+  ~ meq (nr d) (nc d) (absd r) (mmul (nc d) (absd d) (absd y)).
+Proof.
+  exists (mkD 2 2 [1; 0; 1; 1]), (mkD 2 2 [0; 1; 1; 0]). eexists.
+  repeat (split; [vm_compute; reflexivity|]).
+  intro H. specialize (H 1%nat 1%nat (Nat.lt_succ_diag_r 1) (Nat.lt_succ_diag_r 1)). vm_compute in H. discriminate H.
+Qed.
